@@ -44,7 +44,7 @@ FORM_STEPS = ["cfd", "cfd", "cfd_scaled", "cfd_complex", "expand_derivatives", "
               "scaling", "geometry", "attach_degrees", "attach_degrees", "group", "restrictions", "derivative", "action", "adjoint",
               "lhs", "rhs", "replace", "blocks", "signature", "eq", "hash", "str", "degree", "arity", "scale2", "addself", "neg",
               "renumber", "rct", "rcn", "integral_data"]
-EXPR_STEPS = ["abs", "absabs", "conj", "real", "index0", "neg", "addself", "mul2", "T", "grad", "expand_derivatives", "lowering",
+EXPR_STEPS = ["pow1", "powpow", "abs", "absabs", "conj", "real", "index0", "neg", "addself", "mul2", "T", "grad", "expand_derivatives", "lowering",
               "derivatives", "replace", "eq", "hash", "str", "sorted", "variable", "diff", "degree", "rct", "renumber"]
 MDS = [{}, {"quadrature_degree": 2}, {"quadrature_degree": 3, "scheme": "default"}, {"estimated_polynomial_degree": 2},
        {"quadrature_degree": 2, "estimated_polynomial_degree": 5}, {"w": {"__array__": [5, 1, None, 0]}},
@@ -298,8 +298,14 @@ def check_case(case):
                     chained = True
                 if r is not None:
                     add(r)
-            except (RecursionError, Violation):
+            except Violation:
                 raise
+            except RecursionError:
+                # expressions of this size are far from the recursion limit: the step met (or made) a node that
+                # contains itself.  Blame an input if one has become cyclic, otherwise the step itself.
+                for s__ in snaps:
+                    s__.check(name)
+                raise Violation(f"step '{name}' recursed without end: it produced a node that contains itself", {"kind": "mutated:cycle", "step": name})
             except BaseException as ex:
                 if type(ex).__name__ in ("CaseTimeout", "StopRun", "KeyboardInterrupt"):
                     raise
@@ -309,7 +315,17 @@ def check_case(case):
             e2 = pool_e[j_ % len(pool_e)]
             try:
                 r = None
-                if name == "abs":
+                if name == "pow1":
+                    # trivial exponents: e**1, (e**2)**1, e**0 * e
+                    s0 = e if not e.ufl_shape else e[(0,) * len(e.ufl_shape)]
+                    r = (s0 ** 2) ** 1 + s0 ** 1 if not s0.ufl_free_indices else None
+                elif name == "powpow":
+                    # a power of a power and its derivative (the power rule builds f**(n-1) with n-1 == 1)
+                    s0 = e if not e.ufl_shape else e[(0,) * len(e.ufl_shape)]
+                    if not s0.ufl_free_indices:
+                        v_ = ufl.variable(s0)
+                        r = expand_derivatives(ufl.diff((v_ ** 2) ** 2, v_))
+                elif name == "abs":
                     r = abs(e)
                 elif name == "absabs":
                     r = abs(abs(e))
@@ -362,8 +378,14 @@ def check_case(case):
                     chained = True
                 if r is not None:
                     add(r)
-            except (RecursionError, Violation):
+            except Violation:
                 raise
+            except RecursionError:
+                # expressions of this size are far from the recursion limit: the step met (or made) a node that
+                # contains itself.  Blame an input if one has become cyclic, otherwise the step itself.
+                for s__ in snaps:
+                    s__.check(name)
+                raise Violation(f"step '{name}' recursed without end: it produced a node that contains itself", {"kind": "mutated:cycle", "step": name})
             except BaseException as ex:
                 if type(ex).__name__ in ("CaseTimeout", "StopRun", "KeyboardInterrupt"):
                     raise
